@@ -12,6 +12,20 @@ import sys
 HERE = os.path.dirname(os.path.dirname(os.path.abspath(__file__)))
 
 EMPHASIS = {
+    'variables': ("This round is about the VARIABLE CLASSES THEMSELVES (CellVariable, FaceVariable, TrackedArray, BoundaryFace, the location containers): properties and "
+                  "setters (value, xvalue/rvalue/..., a/b/c, periodic), the labelled coordinate access of the grid's coordinate system, constructors in all their documented "
+                  "forms, copy(), update_value(), apply_BCs(), domainIntegral(), plotprofile(), the dirty-flag bookkeeping, and the operators. Each change must be "
+                  "invisible in the common usage (a float array, default or simple Dirichlet conditions, one solve) and manifest only through a rarer but documented way "
+                  "of using these classes: slice or fancy-index assignment through a property, assignment of a scalar vs an array vs a list, a property read and then "
+                  "modified in place, views vs copies, a getter that returns a different object each time, a setter on one label that writes to another component on "
+                  "one grid family, shapes (N,) vs (N,1) vs (1,N), size-1 arrays, 0-d arrays, reversed operands, chained operations, objects pickled / deep-copied."),
+    'solver': ("This round is about THE SOLVERS AND THE ASSEMBLY LOOP (solvePDE, solveMatrixPDE, solveExplicitPDE, the way terms are accumulated, the transient term, the "
+               "source terms, the handling of (matrix, vector) tuples, external solvers, the reshape of the solution into the variable). Each change must be invisible for "
+               "the textbook call (one transient term, one diffusion term, default solver, float dt) and manifest only for a legitimate but rarer call: several terms "
+               "of the same kind, a term list containing tuples AND bare matrices AND bare vectors, terms passed as a tuple instead of a list, negated or scaled terms, "
+               "an empty vector part, sparse matrices in another format (csc, coo, lil) or dense ndarrays where allowed, an external solver that returns a different "
+               "array type (matrix, list, float32), alpha given per cell, dt given as numpy scalar, a variable that is solved twice in a row without anything changed, "
+               "solveExplicitPDE with a RHS that is a list / a column vector / a view, non-contiguous arrays, Fortran-ordered arrays."),
     'bc': ("This round is about BOUNDARY-CONDITION HANDLING: each change must be invisible for the boundary conditions most examples use (default no-flux, a scalar "
            "Dirichlet value set with fixedValue on left/right) and manifest only for a legitimate but rarer configuration - Robin conditions with both a and b non-zero and "
            "of either sign, face-wise (array-valued, non-constant) a, b or c, the utility methods fixedGradient(value, scale_coeffs=...) / newtonCooling(k, h, T_inf, "
